@@ -261,19 +261,22 @@ def model_checks(ctx, d):
 
 def _model_checks(ctx, d, res):
     from lib import mcgen, tlc
-    for name, p, again, it, ch in small_programs(ctx.quick):
+    small = small_programs(ctx.quick)
+    progs, nmax = [], 0
+    for name, p, again, it, ch in small:
         interp, _ = jdfgen.validate(p)
-        mod, cfg = mcgen.write_mc(d, name, "Exec", {"Prog": p, "AgainMax": again, "StartupIter": it, "StartupChunk": ch,
-                                                   "LoopLE": False}, invariants=EXEC_INVARIANTS, deadlock=True)
-        r = ctx.tlc_check(d, mod, cfg, workers=(2 if ctx.quick else 4), timeout=1500, heap="4g",
-                          jvm=(JVM_SHORT if ctx.quick else ("-Xss64m",)))
-        n = len(interp.order)
-        if r.depth < 2 * n + 1:
-            raise tlc.TLCError("vacuity guard: Exec on %s explored depth %d < %d" % (name, r.depth, 2 * n + 1))
-        res.append({"program": name, "tasks": n, "again_max": again, "iter": it, "chunk": ch, "states": r.distinct})
+        nmax = max(nmax, len(interp.order))
+        progs.append({"prog": p, "again": again, "iter": it, "chunk": ch})
+        res.append({"program": name, "tasks": len(interp.order), "again_max": again, "iter": it, "chunk": ch})
+    # one TLC run explores every program (the initial state chooses it)
+    mod, cfg = mcgen.write_mc(d, "exec_all", "Exec", {"Progs": progs, "LoopLE": False}, invariants=EXEC_INVARIANTS,
+                              deadlock=True)
+    r = ctx.tlc_check(d, mod, cfg, workers=4, timeout=3000, heap="6g", jvm=JVM_SHORT)
+    if r.depth < 2 * nmax + 1:
+        raise tlc.TLCError("vacuity guard: Exec explored depth %d < %d" % (r.depth, 2 * nmax + 1))
     name, p, again, it, ch = small_programs(True)[1]
-    mod, cfg = mcgen.write_mc(d, name + "_le", "Exec", {"Prog": p, "AgainMax": 0, "StartupIter": it, "StartupChunk": ch,
-                                                       "LoopLE": True}, invariants=EXEC_INVARIANTS, deadlock=True)
+    mod, cfg = mcgen.write_mc(d, "exec_le", "Exec", {"Progs": [{"prog": p, "again": 0, "iter": it, "chunk": ch}],
+                                                    "LoopLE": True}, invariants=EXEC_INVARIANTS, deadlock=True)
     r = ctx.tlc_check(d, mod, cfg, expect_ok=False, workers=1, timeout=600, heap="2g", jvm=JVM_SHORT)
     if r.violated != "deadlock":
         raise tlc.TLCError("sensitivity self-test: Exec with `<=`-only loops must deadlock on a descending chain, got %r" % r.violated)
@@ -494,14 +497,16 @@ def corruption_selftest(ctx, spec_dir, module, cfg, execution, corrupt, what):
     bad = corrupt(json.loads(json.dumps(execution)))
     if bad is None:
         return
-    # (the original execution was accepted as part of the validated batch)
-    rej = tracecheck.validate_executions(ctx.spec(spec_dir), module, cfg, [bad], confirm=False, max_failures=1)
-    ctx.extra["trace_tlc_runs"] = ctx.extra.get("trace_tlc_runs", 0) + rej.tlc_runs
-    if not rej.failures:
+    # (the original execution was accepted as part of the validated batch); one TLC run: accepted or not
+    path = os.path.join(ctx.scratch, "selftest-%d.ndjson" % len(ctx.extra.get("corruption_selftests", [])))
+    tracecheck._write(bad, path)
+    v, r = tracecheck.validate_file(ctx.spec(spec_dir), module, cfg, path, timeout=600)
+    ctx.extra["trace_tlc_runs"] = ctx.extra.get("trace_tlc_runs", 0) + 1
+    if v.accepted:
         raise tlc.TLCError("sensitivity self-test of %s/%s failed (%s): the corrupted execution was accepted" % (
             module, cfg, what))
-    ctx.extra.setdefault("corruption_selftests", []).append(
-        {"what": what, "rejected_at": rej.failures[0].describe()["matched_prefix"], "of": len(bad)})
+    ctx.extra.setdefault("corruption_selftests", []).append({"what": what, "events": len(bad), "rejected": True,
+                                                             "reason": v.reason})
 
 
 def corrupt_exec(trace_cfg):
